@@ -22,12 +22,28 @@ def err_class(e):
     return 'Other:' + type(e).__name__
 
 
+class _Sink:
+    def write(self, s):
+        return len(s)
+
+    def flush(self):
+        pass
+
+
+_SINK = _Sink()
+
+
 def call(f, *args, **kw):
-    """('ok', value) or ('error', class name)."""
+    """('ok', value) or ('error', class name).  What the implementation prints is dropped (the check's own stdout carries
+    the VIOLATION / KNOWN-FINDING lines)."""
+    old = sys.stdout
+    sys.stdout = _SINK
     try:
         return ('ok', f(*args, **kw))
     except Exception as e:  # noqa
         return ('error', err_class(e))
+    finally:
+        sys.stdout = old
 
 
 def bse():
